@@ -100,6 +100,7 @@ static unsigned long junk_seed = 1;
 static int junk_pat;
 static long max_events = 200000, max_lex = 100000;
 static int realloc_moves = 1;
+static int allow_mask; /* bit0: %array yyless after yymore; bit1: buffer switch in yywrap with yymore pending */
 
 static const sim_scanner_vt *scanners[32];
 static int nscanners;
@@ -638,10 +639,26 @@ static long lmod(long a, long m)
 
 /* returns 1 if the op is to be executed, 0 if it is skipped.  Updates the
  * driver's model of handles/stack for ops that will be executed. */
+static int is_bufop(int code)
+{
+	switch (code) {
+	case SOP_CREATE_BUF: case SOP_SWITCH: case SOP_PUSH_BUF: case SOP_PUSHNEW: case SOP_SWITCHNEW:
+	case SOP_POP_BUF: case SOP_FLUSH: case SOP_DELETE: case SOP_SCAN_BYTES: case SOP_SCAN_STRING:
+	case SOP_SCAN_BUFFER: case SOP_RESTART: case SOP_NEWFILE:
+		return 1;
+	default:
+		return 0;
+	}
+}
+
 static int resolve(sim_inst *I, const plan_op *po, sim_xop *x, int in_action)
 {
 	const sim_scanner_vt *vt = I->vt;
 	int h, s;
+	/* what yymore() means across a change of buffer is not documented:
+	 * an action that called yymore() performs no buffer op */
+	if (in_action && !I->is_eof && I->did_more && is_bufop(po->code))
+		return 0;
 	memset(x, 0, sizeof *x);
 	x->code = po->code;
 	x->a = po->a;
@@ -661,7 +678,7 @@ static int resolve(sim_inst *I, const plan_op *po, sim_xop *x, int in_action)
 			return 0;
 		/* %array: yyless() after yymore() in the same action cancels the
 		 * yymore() (known finding K-more-less, probed separately) */
-		if (I->did_more && vt->text_is_array)
+		if (I->did_more && vt->text_is_array && !(allow_mask & 1))
 			return 0;
 		x->a = I->more_prefix + lmod(po->a, I->cur_len - I->more_prefix + 1);
 		return 1;
@@ -774,6 +791,10 @@ static int resolve(sim_inst *I, const plan_op *po, sim_xop *x, int in_action)
 	case SOP_SET_YYIN:
 	case SOP_NEWFILE:
 		if (po->code == SOP_NEWFILE && !(in_action && I->is_eof))
+			return 0;
+		/* the caller may point yyin elsewhere before the first yylex call,
+		 * after yylex returned 0, or from yywrap / an <<EOF>> action */
+		if (po->code == SOP_SET_YYIN && !in_action && I->lexed && !I->at_eof)
 			return 0;
 		s = fresh_source(I);
 		if (s < 0)
@@ -944,6 +965,11 @@ int sim_wrap_next(sim_xop *x)
 		I->is_eof = 1;
 		if (po->code == SOP_POP_BUF && I->depth < 2)
 			ok = 0;
+		else if (I->prev_more && (po->code == SOP_PUSHNEW || po->code == SOP_SWITCHNEW) && !(allow_mask & 2))
+			/* a yymore() is pending at the end of the source: leaving the
+			 * buffer now and coming back later yields a phantom NUL token
+			 * (known finding K-more-eof-switch, probed separately) */
+			ok = 0;
 		else if (po->code == SOP_SET_YYIN) {
 			ok = resolve(I, po, x, 1);
 		} else
@@ -969,6 +995,7 @@ void sim_log_lex(int ret, int start, int lineno)
 	sim_inst *I = sim_cur;
 	I->lex_calls++;
 	I->in_action = 0;
+	I->at_eof = (ret == 0);
 	ev("L ret=%d start=%d lineno=%d", ret, start, lineno);
 	if (I->lex_calls > max_lex)
 		finish_all("lex-cap");
@@ -1074,6 +1101,8 @@ static void parse_line(char *line)
 	} else if (!strcmp(tok[0], "limit")) {
 		max_events = atol(tok[1]);
 		if (nt > 2) max_lex = atol(tok[2]);
+	} else if (!strcmp(tok[0], "allow")) {
+		allow_mask = atoi(tok[1]);
 	} else if (!strcmp(tok[0], "freerun")) {
 		free_run = atoi(tok[1]);
 	} else if (!strcmp(tok[0], "realloc_moves")) {
